@@ -80,7 +80,7 @@ func init() {
 }
 
 // stopKinds is the stop-cause alphabet of C05 / C06.
-var stopKinds = []string{"none", "cancel_out", "cancel_gate", "cancel_in", "deadline", "eof", "err", "fin", "rst", "short", "outofseq",
+var stopKinds = []string{"none", "cancel_out", "cancel_gate", "cancel_in", "cancel_log", "handler_err_cancel", "deadline", "eof", "err", "fin", "rst", "short", "outofseq",
 	"handler_err", "mapper_err", "mapper_cols", "unsupported", "invalid", "undecodable", "refuse", "err_handshake", "err_query", "cancel_handshake", "cancel_dial"}
 
 func stopHistOpt() gen.HistOpt {
@@ -98,6 +98,14 @@ func drawStop(rt *rapid.T, o gen.HistOpt, kinds []string) *StopCase {
 	c := &StopCase{H: gen.History(rt, o)}
 	for len(c.H.Units) == 0 {
 		c.H = gen.History(rt, o)
+	}
+	if rapid.IntRange(0, 11).Draw(rt, "long_history") == 0 {
+		// a long backlog: hundreds of packets can queue up behind a slow or gated handler
+		seq := make([]int, rapid.IntRange(40, 120).Draw(rt, "long_len"))
+		for i := range seq {
+			seq[i] = rapid.SampledFrom([]int{0, 1, 3, 4, 5, 6}).Draw(rt, "long_sym")
+		}
+		c.H = seqHistory(seq, rapid.IntRange(0, 15).Draw(rt, "long_variant"))
 	}
 	l, err := c.H.Lay()
 	if err != nil {
@@ -132,7 +140,7 @@ func drawStop(rt *rapid.T, o gen.HistOpt, kinds []string) *StopCase {
 	}
 	if c.Handler == HandlerGated {
 		c.GateCall = rapid.IntRange(1, max(1, ntx)).Draw(rt, "gate_call")
-		if k == "handler_err" {
+		if k == "handler_err" || k == "handler_err_cancel" {
 			c.GateCall = c.Fault.At
 		}
 	}
@@ -283,8 +291,12 @@ func enumStops(f func(*StopCase) bool, kinds []string) int {
 				for i := 0; i <= nsteps; i++ {
 					points = append(points, i)
 				}
-			case k == "cancel_in" || k == "handler_err":
+			case k == "cancel_in" || k == "handler_err" || k == "handler_err_cancel":
 				for i := 1; i <= ntx; i++ {
+					points = append(points, i)
+				}
+			case k == "cancel_log":
+				for i := 1; i <= 3*nsteps+4; i++ {
 					points = append(points, i)
 				}
 			case k == "mapper_err" || k == "mapper_cols":
